@@ -14,6 +14,7 @@ import (
 	"os"
 	"strconv"
 	"sync"
+	"time"
 )
 
 // Input is one recorded input value (creation order).
@@ -295,10 +296,16 @@ func runFile(file string, entries map[string]func()) {
 	runOne(file, entry)
 }
 
+// WatchdogSeconds bounds one native replay; a run that does not return in time is reported as "timeout".
+var WatchdogSeconds = 20
+
 func runOne(file string, entry func()) {
 	res := "ok"
 	msg := ""
-	func() {
+	st := cur
+	done := make(chan struct{})
+	go func() {
+		defer close(done)
 		defer func() {
 			if r := recover(); r != nil {
 				if _, ok := r.(AssumeFailed); ok {
@@ -311,6 +318,14 @@ func runOne(file string, entry func()) {
 		}()
 		entry()
 	}()
+	select {
+	case <-done:
+	case <-time.After(time.Duration(WatchdogSeconds) * time.Second):
+		// the goroutine cannot be stopped; it keeps spinning while the remaining files are replayed
+		b, _ := json.Marshal(map[string]any{"file": file, "result": "timeout", "msg": fmt.Sprintf("no result after %d s", WatchdogSeconds)})
+		fmt.Printf("VERIF-NATIVE %s\n", b)
+		return
+	}
 	out := struct {
 		File    string   `json:"file"`
 		Result  string   `json:"result"`
@@ -318,7 +333,7 @@ func runOne(file string, entry func()) {
 		Failed  []string `json:"failed,omitempty"`
 		Observe []string `json:"observe,omitempty"`
 		Tags    []string `json:"tags,omitempty"`
-	}{file, res, msg, cur.Failed, cur.Observe, cur.Tags}
+	}{file, res, msg, st.Failed, st.Observe, st.Tags}
 	b, _ := json.Marshal(out)
 	fmt.Printf("VERIF-NATIVE %s\n", b)
 }
